@@ -5,7 +5,8 @@ import RTV.Model.DtExtract
 ConditionalMatch `k:idx:len:succ`, a MatchedIndex `matched:index`. Records with sub-lists use `/` between parts and
 `;` inside an `ExtFacts` part; lists of such records use `|`. Answers: tokens `s:e,s:e` (`-` = none),
 `err:TypeError` where the code raises.
-  dx.basic  <idx:ms:me:k:ci:cl:cs,..>
+  (<v> = variant flags `basicMatchStart:mdtLenFixed:rangeRstrip`, each 0/1)
+  dx.basic  <v> <idx:ms:me:k:ci:cl:cs,..>
   dx.toks   <s:e,..>                   dx.kept <s:e:keep,..>
   dx.ext    <si> <ei> <ext>                                     -> si:ei
   dx.nwm    <n> <iter|iter..>    iter = num/start/len/isOrd/invalid/monthEnd/ext1/forThe/wdDom/wdDay/relMonth/spaceLen/prefixArt/weekDay/weekDayOK/ofMonth/ext2
@@ -15,10 +16,10 @@ ConditionalMatch `k:idx:len:succ`, a MatchedIndex `matched:index`. Records with 
   dx.suffix <start:stop:k:s:e,..>
   dx.mmd    <start:len:unit:conn,..>  (unit -1 = none)          -> start:len,..
   dx.tag    <start> <len> <k:idx:len:succ:first> <k:idx:len:succ:first>   -> start:len
-  dx.mdt    <start:len:isDate,..> <raises:valid:yext,..> <k:s:e:k:s:e,..>
+  dx.mdt    <v> <start:len:isDate,..> <sufAfter:restEmpty:conn:yext,..> <k:s:e:k:s:e,..>
   dx.todb   <n> <start:len:k:s:e:k:s:e,..> <simple>            dx.toda <n> <start:len:k:s:e,..> <simple>
   dx.special <start:len:k:i:l:s:k:i:l:s,..> <eod>
-  dx.range  <d|t|dt> <start:len,..> <i,..> <till:conn:fm:fi:bm:bi:am:ai,..>
+  dx.range  <v> <d|t|dt> <start:len,..> <i,..> <till:conn:fm:fi:bm:bi:am:ai:lead,..>  (fi / bi = source offsets)
   dx.mdur   <md|md..>  md = start/len/empty/cm/withinDate/cm/cm/nums/prefixLen/numInDur/cm/cm
   dx.inside <n> <s:e,..>                                        -> 1/0  (every token `Tok.Inside n`) -/
 namespace RTV.Drv.Dx
@@ -123,9 +124,14 @@ def pMd (f : String) : Option MdFact :=
       parseInt plen, pB nid, fOptCM ps, fOptCM fs⟩
   | _ => none
 
+def pVariant (f : String) : Variant :=
+  match f.splitOn ":" with
+  | [a, b, c] => ⟨pB a, pB b, pB c⟩
+  | _ => Variant.current
+
 def hBasic : Handler
-  | [fs] =>
-    showToks (dateBasic ((items fs).filterMap fun
+  | [v, fs] =>
+    showToks (dateBasicV (pVariant v) ((items fs).filterMap fun
       | [idx, ms, me, k, ci, cl, cs] => some ⟨parseInt idx, ⟨parseInt ms, parseInt me⟩, optCM k ci cl cs⟩
       | _ => none))
   | _ => "bad-op"
@@ -203,17 +209,17 @@ def hTag : Handler
   | _ => "bad-op"
 
 def hMdt : Handler
-  | [ers, gates, wid] =>
+  | [v, ers, gates, wid] =>
     let e := (items ers).filterMap fun
       | [start, len, d] => some ((⟨parseInt start, parseInt len⟩ : Ent), pB d)
       | _ => none
     let g := (items gates).filterMap fun
-      | [r, v, y] => some (⟨pB r, pB v, parseInt y⟩ : Gate)
+      | [sa, re, c, y] => some (⟨pB sa, pB re, pB c, parseInt y⟩ : Gate)
       | _ => none
     let w := (items wid).filterMap fun
       | [k1, s1, e1, k2, s2, e2] => some (optMt k1 s1 e1, optMt k2 s2 e2)
       | _ => none
-    showOptToks (mergeDateAndTime e g w)
+    showOptToks (mergeDateAndTime (pVariant v) e g w)
   | _ => "bad-op"
 
 def hTodB : Handler
@@ -242,7 +248,7 @@ def hSpecial : Handler
   | _ => "bad-op"
 
 def hRange : Handler
-  | [kind, ers, skips, facts] =>
+  | [v, kind, ers, skips, facts] =>
     let k : RangeKind := if kind == "d" then .datePeriod else if kind == "t" then .timePeriod else .dateTimePeriod
     let e := (items ers).filterMap fun
       | [start, len] => some (⟨parseInt start, parseInt len⟩ : Ent)
@@ -251,10 +257,10 @@ def hRange : Handler
       | [i] => some (parseNat i)
       | _ => none
     let fs := (items facts).filterMap fun
-      | [t, c, fm, fi, bm, bi, am, ai] =>
-        some (⟨pB t, pB c, ⟨pB fm, parseInt fi⟩, ⟨pB bm, parseInt bi⟩, ⟨pB am, parseInt ai⟩⟩ : PairFact)
+      | [t, c, fm, fi, bm, bi, am, ai, ld] =>
+        some (⟨pB t, pB c, ⟨pB fm, parseInt fi⟩, ⟨pB bm, parseInt bi⟩, ⟨pB am, parseInt ai⟩, parseInt ld⟩ : PairFact)
       | _ => none
-    showToks (rangeMerge k e (fun i => sk.contains i) fs)
+    showToks (rangeMerge (pVariant v) k e (fun i => sk.contains i) fs)
   | _ => "bad-op"
 
 def hMdur : Handler
